@@ -1,7 +1,115 @@
-(* C07 - Server UDP sessions are isolated, expire when idle, and never leak. Property theorems only. *)
-From Hy Require Import model.C07_UDPSessions.
-From Coq Require Import NArith List.
+(* C07 - Server UDP sessions are isolated, expire when idle, and never leak.
+   Property theorems only; every proof is `exact <lemma>` from proof/C07_UDPSessions.v.
+   Quantification: `reachable timeout s` = s is the result of ANY finite action sequence of the LTS of
+   model/C07_UDPSessions.v from `init` (any idle timeout): every interleaving of the receive loop, the
+   reply loops and the sweeper at atomic-section granularity, every message sequence over any session
+   ids (complete / ignored fragment), every read / write / send / dial / hook failure, every passage
+   of time, connection loss at any point. *)
+From Hy Require Import model.C07_UDPSessions proof.C07_UDPSessions.
+From Coq Require Import NArith List Bool.
+Import ListNotations.
+Local Open Scope N_scope.
 
-Theorem C07_placeholder_partial : forall (a : nat), a = a.
-Proof. reflexivity. Qed.
-Print Assumptions C07_placeholder_partial.
+(* Every WriteTo goes through the socket owned by the session id of the datagram being written. *)
+Theorem C07_isolation_out : forall timeout s a s' ev k sid ok,
+  reachable timeout s -> step timeout s a = Some (s', ev) -> In (EWrite k sid ok) ev -> owner s k = Some sid.
+Proof. exact isolation_out. Qed.
+Print Assumptions C07_isolation_out.
+
+(* Every SendMessage carrying a packet read from socket k is stamped with the id of the owner of k. *)
+Theorem C07_isolation_back : forall timeout s a s' ev k sid ok,
+  reachable timeout s -> step timeout s a = Some (s', ev) -> In (ESend k sid ok) ev -> owner s k = Some sid.
+Proof. exact isolation_back. Qed.
+Print Assumptions C07_isolation_back.
+
+(* A socket is closed at most once: its Close count is 1 if the entry is closed and has a socket, else 0;
+   a successful write or read only ever happens on a socket whose Close count is 0. *)
+Theorem C07_close_exactly_once : forall timeout s, reachable timeout s ->
+  forall e en, nth_error (heap s) e = Some en ->
+    e_closes en = (if e_closed en && has_sock en then 1%nat else 0%nat) /\ (e_closes en <= 1)%nat.
+Proof. exact close_exactly_once. Qed.
+Print Assumptions C07_close_exactly_once.
+
+Theorem C07_no_io_after_close : forall timeout s a s' ev k, step timeout s a = Some (s', ev) ->
+  (exists sid, In (EWrite k sid true) ev) \/ In (ERead k true) ev ->
+  exists e en, nth_error (heap s) e = Some en /\ e_sock en = Some k /\ e_closes en = 0%nat.
+Proof. exact no_io_after_close. Qed.
+Print Assumptions C07_no_io_after_close.
+
+(* UDP() is only ever called for an entry whose closed flag is clear, and closed is forever
+   (with its socket and Close count frozen). *)
+Theorem C07_no_dial_after_exit : forall timeout s a s' ev sid r,
+  step timeout s a = Some (s', ev) -> In (EDial sid r) ev ->
+  exists e sid' en, rl s = RInit e sid' /\ nth_error (heap s) e = Some en /\ e_sid en = sid /\ e_closed en = false.
+Proof. exact no_dial_after_exit. Qed.
+Print Assumptions C07_no_dial_after_exit.
+
+Theorem C07_closed_forever : forall timeout s a s' ev e en, step timeout s a = Some (s', ev) ->
+  nth_error (heap s) e = Some en -> e_closed en = true ->
+  exists en', nth_error (heap s') e = Some en' /\ e_closed en' = true /\ e_sock en' = e_sock en /\
+              e_closes en' = e_closes en /\ e_sid en' = e_sid en.
+Proof. exact closed_forever. Qed.
+Print Assumptions C07_closed_forever.
+
+(* A datagram whose id has no table entry starts a fresh entry (new index, no socket, not closed), and every
+   successful dial returns a socket number no entry has ever held. *)
+Theorem C07_fresh_after_expiry : forall timeout s, reachable timeout s ->
+  (forall sid c s' ev, rl s = RGot sid c -> C07_UDPSessions.find sid (table s) = None ->
+     step timeout s ALookup = Some (s', ev) -> rl s' = RNew sid c) /\
+  (forall sid c s' ev, rl s = RNew sid c -> step timeout s AInsert = Some (s', ev) ->
+     rl s' = RFeed (length (heap s)) sid c /\ nth_error (heap s) (length (heap s)) = None /\
+     exists en, nth_error (heap s') (length (heap s)) = Some en /\ e_sid en = sid /\ fresh en) /\
+  (forall a s' ev sid k, step timeout s a = Some (s', ev) -> In (EDial sid (Some k)) ev ->
+     k = nsock s /\ forall e en, nth_error (heap s) e = Some en -> e_sock en <> Some k).
+Proof. exact fresh_after_expiry. Qed.
+Print Assumptions C07_fresh_after_expiry.
+
+(* Relative to tick times.  At a tick (taken when the clock has reached next_tick; the next one is one
+   interval later) the sweeper's list is exactly the table entries with now - last > timeout ... *)
+Theorem C07_tick_snapshot : forall timeout s s' ev, step timeout s ATick = Some (s', ev) ->
+  next_tick s <= now s /\ next_tick s' = next_tick s + idleCleanupIntervalMs /\
+  forall e, In e (sw_todo s') <-> In e (map snd (table s)) /\ idle timeout s e = true.
+Proof. exact tick_snapshot. Qed.
+Print Assumptions C07_tick_snapshot.
+
+(* ... an entry idle at that tick is closed whenever the sweeper is next found with nothing left to do,
+   whatever else happened in between ... *)
+Theorem C07_idle_expiry : forall timeout s s1 ev e acts s2 tr,
+  step timeout s ATick = Some (s1, ev) -> In e (map snd (table s)) -> idle timeout s e = true ->
+  run timeout s1 acts = Some (s2, tr) -> sw_todo s2 = [] -> is_closed s2 e.
+Proof. exact idle_expiry. Qed.
+Print Assumptions C07_idle_expiry.
+
+(* ... and an entry with traffic within the timeout is not selected, and the sweeper closes only selected entries. *)
+Theorem C07_active_kept : forall timeout s s1 ev e,
+  step timeout s ATick = Some (s1, ev) -> idle timeout s e = false -> ~ In e (sw_todo s1).
+Proof. exact active_kept. Qed.
+Print Assumptions C07_active_kept.
+
+Theorem C07_sweeper_closes_only_listed : forall timeout s e s' ev,
+  step timeout s (AClose1 TSW e) = Some (s', ev) -> In e (sw_todo s).
+Proof. exact sweeper_closes_only_listed. Qed.
+Print Assumptions C07_sweeper_closes_only_listed.
+
+(* After the connection ended, in every state where nothing is left to run except reply loops that would be
+   genuinely blocked in ReadFrom on an open socket: the table is empty, every entry is closed, no reply loop
+   is running (so none is blocked either), every socket ever opened has been closed exactly once. *)
+Theorem C07_no_leak_at_exit : forall timeout s, reachable timeout s -> terminal s = true ->
+  table s = [] /\
+  forall e en, nth_error (heap s) e = Some en ->
+    e_closed en = true /\ reply_running en = false /\
+    (forall k, e_sock en = Some k -> e_closes en = 1%nat /\ e_pc en = PDone).
+Proof. exact no_leak_at_exit. Qed.
+Print Assumptions C07_no_leak_at_exit.
+
+(* Non-vacuity: two sessions, one expires, its id is reused on a new socket, the connection is lost. *)
+Theorem C07_example_run :
+  exists s tr, run 2000 init ex_acts = Some (s, tr) /\ terminal s = true /\ table s = [] /\
+    length (heap s) = 3%nat /\ nsock s = 3 /\
+    tr = [ERecv 1 true; EDial 1 (Some 0); EWrite 0 1 true; ERecv 2 true; EDial 2 (Some 1); EWrite 1 2 true;
+          EAdvance 1000; ERead 1 true; ESend 1 2 true; EAdvance 1000; EAdvance 1000;
+          EClose 0; ELogClose 1; ERead 0 false;
+          ERecv 1 true; EDial 1 (Some 2); EWrite 2 1 true; ERecvErr;
+          EClose 2; ELogClose 1; EClose 1; ELogClose 2; ERead 1 false; ERead 2 false].
+Proof. exact example_run. Qed.
+Print Assumptions C07_example_run.
